@@ -21,7 +21,7 @@ import subprocess
 import sys
 
 VERIF = os.path.dirname(os.path.dirname(os.path.abspath(__file__)))
-WORK = "/tmp/twinwork"
+WORK = f"/tmp/twinwork-{os.getpid()}"
 PY = "/venv/bin/python"
 
 
